@@ -5,6 +5,8 @@ SPECIFICATION Spec
 CONSTANTS
   SameFs = TRUE
   LinkBackup = TRUE
+  ClockSteps = TRUE
+  StaleCheck = FALSE
 INVARIANTS
   TypeOK
   LnkSound
